@@ -75,14 +75,25 @@ fn ev(op: &str, tbl: &str, s: &str, k: i64, ns: &str) -> serde_json::Map<String,
     m
 }
 
+fn fill(m: &mut serde_json::Map<String, J>, cl: usize, fresh: bool, rb: J) {
+    m.insert("cls".into(), json!(cl));
+    m.insert("fresh".into(), json!(fresh));
+    m.insert("has".into(), json!(true));
+    m.insert("rb".into(), rb);
+}
+
 pub fn intern_drive(seed: u64, episodes: usize, len: usize, big: usize, out: &str) {
     let mut f = std::io::BufWriter::new(std::fs::File::create(out).expect("create out"));
     let mut master = Rng::new(seed);
     let strs = ["a", "b", "c", "x1", "http://e/1", "", "xml", "space", "id", "http://www.w3.org/XML/1998/namespace", "é", "A",
-                " a", "a ", " a ", "a\n", "\ta", " ", "a b", "Xml", "HTTP://E/1", "http://e/1/", "zz", "other", "n1", "n2", "q1", "v1", "w&x", "BR", "br", "DIV", "Br", "svg"];
+                " a", "a ", " a ", "a\n", "\ta", " ", "a b", "Xml", "HTTP://E/1", "http://e/1/", "zz", "other", "n1", "n2", "q1", "v1", "w&x", "BR", "br", "DIV", "Br", "svg",
+                "xml:id", "xml:lang", "p:a", "xmlns", "xmlns:p", ":a"];
     // texts for the opaque calls: accepted ones, and rejected ones that have registered new strings before the error
     // (text, what an accepted parse of it has registered: (table, string, namespace of a name))
-    let texts: [(&str, &[(&str, &str, &str)]); 15] = [
+    let texts: [(&str, &[(&str, &str, &str)]); 17] = [
+        // a prefix (or the default namespace) bound A, then B, then A again on nested elements
+        ("<a xmlns:p='v1'><b xmlns:p='u1'><c xmlns:p='v1'><p:e/></c><p:zz/></b></a>", &[("name", "e", "v1"), ("name", "zz", "u1")]),
+        ("<a xmlns='v1'><b xmlns=''><c xmlns='v1'><q1/></c><zz/></b></a>", &[("name", "q1", "v1"), ("name", "zz", ""), ("name", "b", ""), ("name", "c", "v1")]),
         // a processing-instruction target is a plain name, whatever default namespace is in force around it
         ("<a xmlns='u1'><?zz d?><b><?q1?></b></a>", &[("name", "zz", ""), ("name", "q1", ""), ("name", "a", "u1"), ("name", "b", "u1")]),
         ("<?other x?><BR xmlns='http://www.w3.org/1999/xhtml'><br/></BR>", &[("name", "other", ""), ("name", "BR", "http://www.w3.org/1999/xhtml"), ("name", "br", "http://www.w3.org/1999/xhtml")]),
@@ -121,12 +132,41 @@ pub fn intern_drive(seed: u64, episodes: usize, len: usize, big: usize, out: &st
         m.insert("builtins".into(), b);
         writeln!(f, "{}", J::Object(m)).unwrap();
         let mut bulk_next = 0i64;
+        if ep == 1 && big > 0 {
+            // registering what is registered already costs nothing: the same key `big` times over in each table gives the same
+            // id every time, and the registrations that follow in this episode behave as in any other
+            for tbl in ["name", "ns", "px"] {
+                let mut m = ev("add", tbl, "rep", -1, "");
+                let (cl, fresh, back, stable) = match tbl {
+                    "name" => {
+                        let id = x.add_name("rep");
+                        let stable = (0..big).all(|_| x.add_name("rep") == id);
+                        let (cl, fr) = c.name(id);
+                        (cl, fr, x.name_ns_str(id).0.to_string(), stable)
+                    }
+                    "ns" => {
+                        let id = x.add_namespace("rep");
+                        let stable = (0..big).all(|_| x.add_namespace("rep") == id);
+                        let (cl, fr) = c.ns(id);
+                        (cl, fr, x.namespace_str(id).to_string(), stable)
+                    }
+                    _ => {
+                        let id = x.add_prefix("rep");
+                        let stable = (0..big).all(|_| x.add_prefix("rep") == id);
+                        let (cl, fr) = c.px(id);
+                        (cl, fr, x.prefix_str(id).to_string(), stable)
+                    }
+                };
+                fill(&mut m, cl, fresh, if stable { split_key(&back, "rep", -1) } else { json!({"s": "?repeated registration of one key returned different ids", "k": -1}) });
+                writeln!(f, "{}", J::Object(m)).unwrap();
+            }
+        }
         let nsteps = if ep == 0 && big > 0 { 6 } else { len };
         // a panic of the code under test is data: it is logged as an event (the episode ends there)
         let mut last = String::new();
         let outcome = std::panic::catch_unwind(std::panic::AssertUnwindSafe(|| {
         for step in 0..nsteps {
-            let roll = if ep == 0 && big > 0 { [90, 90, 90, 92, 92, 93][step % 6] } else { r.below(100) };
+            let roll = if ep == 0 && big > 0 { [90, 90, 90, 92, 93, 92][step % 6] } else { r.below(100) };
             let s = *r.pick(&strs);
             let nss = *r.pick(&["", "u1", "http://e/1", "http://www.w3.org/XML/1998/namespace", " u1", "u1 ", "U1", "https://www.w3.org/1999/xhtml",
                                 "http://www.w3.org/1999/xhtml", "http://www.w3.org/2000/svg"]);
@@ -148,6 +188,73 @@ pub fn intern_drive(seed: u64, episodes: usize, len: usize, big: usize, out: &st
                 m.insert("fresh".into(), json!(fresh));
                 m.insert("has".into(), json!(true));
                 m.insert("rb".into(), split_key(x.prefix_str(id), s, -1));
+            } else if roll < 62 && r.chance(1, 3) {
+                // the same registrations through src/xmlname: OwnedName::to_ref / to_create, CreateNamespace + CreateName::namespaced,
+                // CreateName::prefixed / parse_full_name; every id that comes back is logged as a registration in its table
+                use xot::xmlname::{CreateName, CreateNamespace, NameStrInfo, OwnedName};
+                let pfx = *r.pick(&["", "p", "q1", "xml", "a", "n1", " p"]);
+                let route = match r.below(5) {
+                    4 if pfx.is_empty() && s.contains(':') => 3,
+                    k => k,
+                };
+                // (prefix id, read back), (namespace id, read back), (name id)
+                let (pid, nsid, nid): (Option<PrefixId>, Option<NamespaceId>, NameId) = match route {
+                    0 => {
+                        let o = OwnedName::new(s.to_string(), nss.to_string(), pfx.to_string());
+                        let rf = o.to_ref(&mut x);
+                        let ok = rf.local_name() == s && rf.namespace() == nss && rf.prefix() == pfx;
+                        let t = (Some(rf.prefix_id()), Some(rf.namespace_id()), rf.name_id());
+                        if !ok {
+                            last = format!("{last}: OwnedName::to_ref gives a reference with other strings");
+                            panic!("to_ref strings");
+                        }
+                        t
+                    }
+                    1 => {
+                        let o = OwnedName::new(s.to_string(), nss.to_string(), pfx.to_string());
+                        let cn = o.to_create(&mut x);
+                        (None, None, cn.name_id())
+                    }
+                    2 => {
+                        let cns = CreateNamespace::new(&mut x, pfx, nss);
+                        let cn = CreateName::namespaced(&mut x, s, &cns);
+                        (Some(cns.prefix_id()), Some(cns.namespace_id()), cn.name_id())
+                    }
+                    3 => {
+                        let want = x.add_namespace(nss);
+                        let cn = CreateName::prefixed(&mut x, pfx, s, |p| if p == pfx { Some(want) } else { None }).expect("prefixed");
+                        (None, Some(want), cn.name_id())
+                    }
+                    _ => {
+                        let want = x.add_namespace(nss);
+                        // (only strings without a colon: the first colon separates the prefix)
+                        let full = if pfx.is_empty() { s.to_string() } else { format!("{pfx}:{s}") };
+                        let cn = CreateName::parse_full_name(&mut x, &full, |p| if p == pfx { Some(want) } else { None }).expect("parse_full_name");
+                        (None, Some(want), cn.name_id())
+                    }
+                };
+                if let Some(pid) = pid {
+                    let mut m0 = ev("add", "px", pfx, -1, "");
+                    let (cl, fresh) = c.px(pid);
+                    fill(&mut m0, cl, fresh, split_key(x.prefix_str(pid), pfx, -1));
+                    writeln!(f, "{}", J::Object(m0)).unwrap();
+                }
+                let nsid = match nsid {
+                    Some(n) => n,
+                    None => x.namespace(nss).unwrap_or(x.no_namespace()),
+                };
+                let mut m0 = ev("add", "ns", nss, -1, "");
+                let (cl0, fresh0) = c.ns(nsid);
+                fill(&mut m0, cl0, fresh0, split_key(x.namespace_str(nsid), nss, -1));
+                writeln!(f, "{}", J::Object(m0)).unwrap();
+                m = ev("add", "name", s, -1, nss);
+                let (cl, fresh) = c.name(nid);
+                let (l, n) = x.name_ns_str(nid);
+                fill(&mut m, cl, fresh, split_key(l, s, -1));
+                m.insert("rbns".into(), json!(n));
+                if x.namespace_for_name(nid) != nsid {
+                    m.insert("rbns".into(), json!("?inconsistent-accessors"));
+                }
             } else if roll < 62 {
                 m = ev("add", "name", s, -1, nss);
                 let nsid = x.add_namespace(nss);
@@ -188,6 +295,33 @@ pub fn intern_drive(seed: u64, episodes: usize, len: usize, big: usize, out: &st
                     m.insert("has".into(), json!(true));
                     m.insert("rb".into(), split_key(x.prefix_str(id), s, -1));
                 }
+            } else if roll < 90 && r.chance(1, 3) {
+                // the read-only way from strings to ids: OwnedName::maybe_to_ref finds what is registered and registers nothing;
+                // a prefix that is not registered comes back as the empty prefix
+                use xot::xmlname::OwnedName;
+                let pfx = *r.pick(&["", "p", "q1", "xml", "zz", "n1"]);
+                let o = OwnedName::new(s.to_string(), nss.to_string(), pfx.to_string());
+                let got = o.maybe_to_ref(&x).map(|rf| (rf.name_id(), rf.prefix_id()));
+                m = ev("get", "name", s, -1, nss);
+                if let Some((id, pid)) = got {
+                    let (cl, fresh) = c.name(id);
+                    let (l, n) = x.name_ns_str(id);
+                    fill(&mut m, cl, fresh, split_key(l, s, -1));
+                    m.insert("rbns".into(), json!(n));
+                    let registered = x.prefix(pfx).is_some();
+                    let pkey = if registered { pfx } else { "" };
+                    let mut m0 = ev("get", "px", pkey, -1, "");
+                    let (clp, freshp) = c.px(pid);
+                    fill(&mut m0, clp, freshp, split_key(x.prefix_str(pid), pkey, -1));
+                    writeln!(f, "{}", J::Object(m0)).unwrap();
+                }
+                // nothing was registered by it: the plain lookup of the prefix says the same as before
+                let mut m1 = ev("get", "px", pfx, -1, "");
+                if let Some(pid) = x.prefix(pfx) {
+                    let (clp, freshp) = c.px(pid);
+                    fill(&mut m1, clp, freshp, split_key(x.prefix_str(pid), pfx, -1));
+                }
+                writeln!(f, "{}", J::Object(m1)).unwrap();
             } else if roll < 90 {
                 m = ev("get", "name", s, -1, nss);
                 let found = match x.namespace(nss) {
@@ -256,7 +390,7 @@ pub fn intern_drive(seed: u64, episodes: usize, len: usize, big: usize, out: &st
                 m.insert("newcls".into(), json!(newcls));
                 m.insert("firstcls".into(), json!(first));
                 m.insert("contig".into(), json!(contig && bad_rb == 0));
-            } else if roll < 94 && bulk_next > 0 {
+            } else if roll < 93 && bulk_next > 0 {
                 // look up a member of an earlier bulk range (in all three tables: found in exactly one)
                 let k = r.below(bulk_next as usize) as i64;
                 let key = key_str("fam", k);
@@ -285,7 +419,7 @@ pub fn intern_drive(seed: u64, episodes: usize, len: usize, big: usize, out: &st
                     writeln!(f, "{}", J::Object(m2)).unwrap();
                 }
                 continue;
-            } else if roll < 93 {
+            } else if roll < 94 {
                 m = ev("clone", "", "", -1, "");
                 x = x.clone();
             } else if roll < 97 {
